@@ -53,6 +53,20 @@ SuggestFacts(idx, o) ==
                                /\ \A t \in (cand \ {o.word}) \ LS : /\ Len(L) >= o.limit
                                                                      /\ \A x \in LS \ {o.word} : ~SugBetter(idx, o, t, x)]
 
+\* ---- query correction (Searcher.correct_query; C19) -------------------------------------
+\* o = [f, words, k, p, qterms, sterms]: words = the terms of the typed query in order, qterms = the terms of
+\* the corrected query, sterms = the words of the corrected string.  A word that is a term of the field is
+\* left alone; any other word is replaced by an existing term within the distance (sharing the prefix) when
+\* there is one, and left alone otherwise; the corrected string says what the corrected query says.
+CorrectFacts(idx, o) ==
+  LET cand(w) == SugCand(idx, [f |-> o.f, word |-> w, k |-> o.k, p |-> o.p]) \ {w}
+      wordOK(w, r) == IF w \in Lexicon(idx, o.f) THEN r = w
+                      ELSE IF cand(w) = {} THEN r = w ELSE r \in cand(w)
+  IN [one_term_per_word |-> Len(o.qterms) = Len(o.words) /\ Len(o.sterms) = Len(o.words),
+      words_corrected_as_specified |-> Len(o.qterms) = Len(o.words) =>
+                                         \A i \in DOMAIN o.words : wordOK(o.words[i], o.qterms[i]),
+      string_agrees_with_query |-> [i \in DOMAIN o.sterms |-> o.sterms[i]] = [i \in DOMAIN o.qterms |-> o.qterms[i]]]
+
 \* ---- matched terms of a hit (search(terms=True); C01/C11) ------------------------
 \* The terms a query is made of (multi-term clauses: the terms they expand to), and of those the ones
 \* that occur in document d: that is what Hit.matched_terms() must report, no more and no less.
@@ -133,6 +147,7 @@ Expected(idx, m, q, o) ==
     [] o.kind = "list" -> [list |-> Hits(m, Ids(m)), scored |-> Scored(q)]
     [] o.kind = "flag" -> [value |-> TRUE]
     [] o.kind = "suggest" -> SuggestFacts(idx, o)
+    [] o.kind = "correct" -> CorrectFacts(idx, o)
     [] o.kind = "atleast" -> [n |-> Cardinality(DOMAIN m)]
 
 ObsOK(idx, m, q, o) ==
@@ -145,6 +160,8 @@ ObsOK(idx, m, q, o) ==
          /\ o.n = S.n /\ o.df = S.df /\ o.cf4 = S.cf4 /\ o.totlen = S.totlen /\ o.docs = S.docs
     [] o.kind = "count" -> o.n = Cardinality(DOMAIN m)
     [] o.kind = "error" -> FALSE      \* a search of a well-formed query never raises
+    [] o.kind = "correct" -> LET F == CorrectFacts(idx, o) IN
+         F.one_term_per_word /\ F.words_corrected_as_specified /\ F.string_agrees_with_query
     [] o.kind = "suggest" -> LET F == SuggestFacts(idx, o) IN
                                 /\ F.existing_within_distance /\ F.not_the_word_itself
                                 /\ F.closer_then_more_frequent_first /\ F.limit_keeps_the_best
